@@ -2840,6 +2840,15 @@ fn eval_built_in_call(
             }
         }
         BuiltInFunctionKind::PreludeReadLine => {
+            if env.enforce_sandbox {
+                let saved_values = saved_call_values(receiver_value, arg_values);
+
+                return Err((
+                    RestoreValues(saved_values),
+                    EvalError::ForbiddenInSandbox(receiver_pos.clone()),
+                ));
+            }
+
             check_arity(
                 &SymbolName {
                     text: format!("{kind}"),
